@@ -85,6 +85,11 @@ pub struct Bounds {
     /// that very instant (so that the lagger's request for its parent finds nobody).
     #[serde(default)]
     pub crash_first_proposer: bool,
+    /// C07 with a peer that crashes around the heal: every backward step of the catch-up through
+    /// a block authored by the crashed peer costs one retry period; the deadline contains this
+    /// many such periods, and the run is not judged when the gap would need more.
+    #[serde(default)]
+    pub slow_steps: u64,
 }
 
 /// Content-triggered slow-leader fault: when round r-1 is first seen on the wire and r is in
